@@ -106,6 +106,16 @@ CHECKS = {
                      "alteration of the wrapped-key blob, encryption.data and both MACs must raise and leave VMX.attr unchanged.",
                 note="trusted: PyCryptodome AES, hashlib/hmac, the key safe layout transcription in mc/builders/vmxenc.py",
                 technique="exhaustive enumeration of parameter products and single-byte alterations on the real unlock path"),
+    "C16": dict(level=MC, ref="DESIGN.md section 4 C16",
+                text="An independent serializer + AES-256-GCM (validated against the repository's local.tgz.ve: header block byte "
+                     "for byte, tag verifies) produces every combination of payload length x padding x attribute order x caller "
+                     "AAD and every extra attribute type with boundary values; decrypt must return exactly the payload and the "
+                     "command-line tool must write exactly it and nothing else; every single-bit flip of the key and every "
+                     "single-byte alteration of the attribute records, ciphertext, tag and caller AAD must raise; key store "
+                     "texts in mode NONE derive the independently computed PBKDF2 key, twice.",
+                note="trusted: PyCryptodome AES-GCM, hashlib, layout transcription in mc/builders/envelope.py; reserved bytes and "
+                     "zero padding of the header block are excluded (not 'header attributes')",
+                technique="exhaustive enumeration of parameter products and single-byte alterations on the real decrypt path"),
 }
 
 PENDING_REASON = "check not built yet in this session (planned in DESIGN.md section 4); not claimed until it runs"
